@@ -44,10 +44,19 @@ def rowIsSokuon (row : Row) : Bool :=
   | c :: _ => isSokuon c
   | [] => false
 
+/-- `"aiueo".contains(first letter as a string)` (true for an empty spelling, too) -/
+def vowelHead (alpha : Str) : Bool :=
+  match alpha.take 1 with
+  | [] => true
+  | [c] => Nat.beq c 97 || Nat.beq c 105 || Nat.beq c 117 || Nat.beq c 101 || Nat.beq c 111
+  | _ => false
+
 /-- The normal case of `expand_roma`: a run of sokuon, then the row's kana. -/
 def expandUnit (row : Row) (s : Str) : Option (Str × Nat) :=
   if startsWith (stripSokuons s).2 row.1 || startsWith (stripSokuons s).2 row.2.1 then
-    some (replicateStr (stripSokuons s).1 (row.2.2.take 1) ++ row.2.2, row.1.length + (stripSokuons s).1)
+    -- doubling a vowel does not spell a sokuon: the row does not match, the sokuon's own row will
+    if decide (0 < (stripSokuons s).1) && vowelHead row.2.2 then none
+    else some (replicateStr (stripSokuons s).1 (row.2.2.take 1) ++ row.2.2, row.1.length + (stripSokuons s).1)
   else none
 
 /-- `Conversion::expand_roma`: (romaji, number of characters consumed). The row of the sokuon
